@@ -61,8 +61,11 @@ package ice
 // accepted the message, and only for the remote candidate it accepted; a Binding
 // indication reaches no handler at all.
 //@ func (*Agent).handleInbound
-//@   props C02
+//@   props C02 C04
 //@   requires a != nil
+//@   site call handleInboundResponse#1 assert C04 a-failed-agent-is-deaf-until-it-is-restarted: a.connectionState != ConnectionStateFailed
+//@   site call handleInboundRequest#1 assert C04 a-failed-agent-is-deaf-until-it-is-restarted: a.connectionState != ConnectionStateFailed
+//@   ensures C04 a-failed-agent-ignores-stun-traffic: old(a.connectionState) == ConnectionStateFailed ==> unchangedExcept()
 //@   ghostvar handled bool = false
 //@   ghostvar accepted bool = false
 //@   site call handleInboundResponse#1 assert responses-only-for-success-responses: msg.Type.Class == 2 && msg.Type.Method == 1 && arg4 == msg && arg2 == local
